@@ -34,7 +34,7 @@ def _execute(arg, want_info=False):
     pybtex.io.stdout = out
     # CPU time of this process, not wall-clock time: a busy machine must not look like a diverging program
     old_handler = signal.signal(signal.SIGVTALRM, U.on_alarm)
-    signal.setitimer(signal.ITIMER_VIRTUAL, 10)
+    signal.setitimer(signal.ITIMER_VIRTUAL, 5)
     try:
         with errors.capture() as captured:
             parsed = [U.enc_command(c) for c in bst.parse_stream(io.StringIO(text))]
@@ -153,7 +153,30 @@ def gen(tier, rng):
             for arg, d in zip(ch, o):
                 if d is not None:
                     _ORACLE_DATA[_key(arg)] = d
+    global _CASES
+    _CASES = cases
     return cases
+
+_CASES = []
+
+def extra_checks(ck, tier, rng):
+    """welltyped_no_crash, on the implementation: every generated program that the extracted type checker
+    (Spec/BstTyping.check, model function 2) accepts must not raise a foreign Python exception"""
+    from collections import Counter
+    cases = [(st, arg) for (st, fn, arg) in _CASES if st not in ('exhaustive', 'exhaustive4')]
+    verdicts = ck.model.run([(2, [arg[0]]) for (_, arg) in cases], ck.rundir)
+    acc = [(st, arg) for (st, arg), v in zip(cases, verdicts) if v[:1] == [1]]
+    outs = run_impl({1: impl_run}, [(1, arg) for (_, arg) in acc])
+    per = Counter(); accd = Counter(); kinds = Counter()
+    for st, _ in cases: per[st] += 1
+    fails = []
+    for (st, arg), o in zip(acc, outs):
+        accd[st] += 1
+        kinds[{0: 'ended normally', 1: 'BibTeX error', 2: 'foreign exception', 3: 'did not end'}.get(o[0], '?')] += 1
+        if o[0] == 2:
+            fails.append((describe(1, arg), 'accepted by the type checker, yet the implementation raised a foreign exception', True))
+    yield {'name': 'welltyped_no_crash_on_impl', 'evaluations': len(cases), 'failures': fails[:5],
+           'info': {'accepted_by_stream': {k: '%d/%d' % (accd[k], per[k]) for k in sorted(per)}, 'outcomes_of_accepted': dict(kinds)}}
 
 def canon(fn, out):
     out = canon_res(out)
@@ -166,15 +189,20 @@ def canon(fn, out):
     return out
 
 # ----------------------------------------------------------------------------------------
-RULE = ('exhaustive: every straight-line program of at most 3 tokens over the token pool (4 integers, 6 strings incl. braces, a special '
-        'character and a name list, a function literal, quoted global int/str variables, the variables themselves, all 37 built-ins), run by '
-        'EXECUTE -- well-typed and ill-typed alike; every operand triple x {substring$ text.prefix$ format.name$ if$ while$ :=}; '
-        'random: type-directed programs with nested function literals, bounded while$, global and entry variables, MACRO, READ over a generated '
-        'database (crossref, macros, preamble, missing and duplicate citations), ITERATE / SORT / REVERSE, call.type$; the shipped styles '
-        'plain/unsrt/alpha over xampl.bib; malformed: token-level delete / duplicate / replace / swap of valid programs, wrong command arities, '
-        'commands out of order.  distinct = distinct cases; non-trivial = the run succeeded and left something on the stack, in the output or in a variable.')
-EXHAUSTIVE = {'quick': 'all EXECUTE programs of <= 3 tokens over a 57-token pool (operands + all built-ins), all operand triples for the ternary built-ins',
-              'thorough': 'same pool, all programs of <= 3 tokens plus a seeded 12% sample of length 4'}
+RULE = ('exhaustive: every straight-line program of at most 2 tokens, and of 3 tokens whose first token is an operand or a built-in '
+        'without operands (quick: a seeded 20% sample of the 3-token ones), over a 54-token pool (4 integers, 7 strings incl. braces, a '
+        'special character, a name list and white space, a function literal, quoted and unquoted global int/str variables, a quoted '
+        'built-in, all 37 built-ins), run by EXECUTE -- well-typed and ill-typed alike; every operand triple x {substring$ if$ format.name$}; '
+        'every value x target x reader of := ; per-entry programs of <= 2 tokens; every kind of value (int, str, missing field, field, '
+        'function, reference to each kind of interpreter object) as operand of every unary / binary / ternary built-in inside ITERATE; '
+        'random: type-directed programs with nested function literals, bounded while$, global and entry variables, MACRO, READ over a '
+        'generated database (crossref, macros, preamble, missing and duplicate citations), ITERATE / SORT / REVERSE, call.type$; '
+        'database-free random programs; ITERATE/REVERSE/SORT/scoping probes; the shipped styles plain/unsrt/alpha over xampl.bib; '
+        'malformed: token-level delete / duplicate / replace / swap of valid programs, wrong command arities, commands out of order. '
+        'distinct = distinct cases; non-trivial = the run succeeded and left something on the stack, in the output or in a variable. '
+        'extra check: every generated program the extracted type checker accepts must not raise a foreign exception in the implementation.')
+EXHAUSTIVE = {'quick': 'all EXECUTE programs of <= 2 tokens over a 54-token pool (operands + all 37 built-ins); all operand triples for substring$/if$/format.name$; all := combinations; all value kinds x all built-ins of arity <= 2 in entry context (3-token programs and arity-3 kind combinations: seeded 20% sample)',
+              'thorough': 'all EXECUTE programs of <= 3 tokens (first token an operand or operand-free built-in) over the 54-token pool, a seeded 2% sample of length 4; all operand triples; all := combinations; all value kinds x all built-ins in entry context'}
 TRUSTED_BASE = ['modelled (not verified) code: pybtex/bibtex/interpreter.py, pybtex/bibtex/builtins.py (all of both), the string primitives of pybtex/bibtex/utils.py through Model/BibtexStr.v and Model/Wrap.v',
                 'handed to the model as measured data, not modelled here: what READ finds (bib parsing, citation expansion, crossref field inheritance: C01/C05/C14), names.format_name(name, format) (C11), the charwidths table',
                 'the generated AST is printed to .bst text and parsed back by pybtex.bibtex.bst; the check fails if the parsed script is not the AST given to the model (C15 owns the parser)']
